@@ -77,9 +77,14 @@ Proof.
   apply andb_true_iff in Ha as [Hx Ha]. rewrite Hx, IH; auto.
 Qed.
 
+(* linear-time list reversal (List.rev extracts to a quadratic function) *)
+Definition frev (l : bytes) : bytes := rev_append l [].
+Lemma frev_rev l : frev l = rev l.
+Proof. unfold frev. symmetry. apply rev_alt. Qed.
+
 (* ares_str_trim (ltrim then rtrim, ares_isspace) *)
 Definition ltrim (s : bytes) : bytes := dropwhile isspace s.
-Definition rtrim (s : bytes) : bytes := rev (dropwhile isspace (rev s)).
+Definition rtrim (s : bytes) : bytes := frev (dropwhile isspace (frev s)).
 Definition str_trim (s : bytes) : bytes := rtrim (ltrim s).
 
 (* position of the first occurrence of [c] (memchr) *)
